@@ -552,12 +552,43 @@ class Reorder(Unit):
             rec.witness("full permutation group")
 
 
+MATH_DESIGN_UNIT_FIELDS = ("DelimitedSubFormulaMinHeight", "DisplayOperatorMinHeight", "MinConnectorOverlap", "AdvanceMeasurement",
+                           "StartConnectorLength", "EndConnectorLength", "FullAdvance")
+
+
+def math_quantities(font):
+    """{path: value} of every design-unit quantity of the MATH table: MathValueRecord.Value everywhere plus
+    the plain 16-bit fields the specification gives in design units (percentages are not)"""
+    out = {}
+
+    def walk(obj, path):
+        if isinstance(obj, (list, tuple)):
+            for i, x in enumerate(obj):
+                walk(x, "%s[%d]" % (path, i))
+            return
+        if not hasattr(obj, "__dict__"):
+            return
+        if hasattr(obj, "ensureDecompiled"):
+            obj.ensureDecompiled()
+        for k, v in sorted(vars(obj).items()):
+            if k.startswith("_") or k in ("reader", "font"):
+                continue
+            if isinstance(v, int) and not isinstance(v, bool):
+                if (type(obj).__name__ == "MathValueRecord" and k == "Value") or k in MATH_DESIGN_UNIT_FIELDS:
+                    out["%s/%s" % (path, k)] = v
+            else:
+                walk(v, "%s/%s" % (path, k))
+
+    walk(font["MATH"].table, "MATH")
+    return out
+
+
 class Scale(Unit):
     name = "scale-upem"
     rule = ("scale_upem(font, new) for new in {16, 500, 1000, 1024, 2000, 2048, 2500, 16384} (integer and non-integer ratios, up and down) on every corpus/generated font with glyf/CFF/CFF2 outlines (AOTS family: a rotating sixth in quick), the smallest and largest value also on a lazily loaded font; font saved and reloaded; "
-            "oracle: unitsPerEm is the new value; by glyph name every HarfBuzz outline coordinate, advance and shaping advance/offset equals old*factor within the rounding budget; table set, cmap, glyph names and shaped glyph sequences unchanged; distinct = (font, upem)")
+            "oracle: unitsPerEm is the new value; by glyph name every HarfBuzz outline coordinate, advance and shaping advance/offset equals old*factor within the rounding budget; table set, cmap, glyph names and shaped glyph sequences unchanged; every design-unit quantity of a MATH table (value records and the plain height / overlap / connector / advance fields) equals old*factor within half a unit; distinct = (font, upem)")
     chunk = 4
-    required_witnesses = ("GPOS font", "CFF font", "gvar font", "kern table", "non-integer ratio", "downscale", "lazily loaded font", "CFF FontMatrix follows the em")
+    required_witnesses = ("GPOS font", "CFF font", "gvar font", "kern table", "non-integer ratio", "downscale", "lazily loaded font", "CFF FontMatrix follows the em", "MATH table")
 
     def setup(self, tier, seed):
         load_fonts()
@@ -601,6 +632,18 @@ class Scale(Unit):
         if after["upem"] != new:
             rec.violation("scale:upem", "%s: unitsPerEm is %s after scale_upem(%s)" % (key, after["upem"], new))
         compare(before, after, new / old, rec, "scale", "%s upem %s->%s" % (key, old, new))
+        if "MATH" in font:
+            # MATH: every quantity the specification gives in design units (HarfBuzz' shaping does not
+            # look at them; read from the files)
+            mb = math_quantities(TTFont(io.BytesIO(_FONTS[key])))
+            ma = math_quantities(TTFont(io.BytesIO(data)))
+            rec.witness("MATH table")
+            if sorted(mb) != sorted(ma):
+                rec.violation("scale:math:structure", "%s upem %s->%s: MATH table has other fields after scaling" % (key, old, new))
+            else:
+                bad = [(k, mb[k], ma[k]) for k in sorted(mb) if abs(ma[k] - mb[k] * new / old) > 0.5 + 1e-9]
+                for k, b, a in bad[:3]:
+                    rec.violation("scale:math:" + k.split("/")[-1], "%s upem %s->%s: MATH %s is %d, was %d (factor %.4f)" % (key, old, new, k, a, b, new / old))
         if "CFF " in font:
             # the CFF FontMatrix maps glyph units to the em: it has to follow the units-per-em, and it has
             # to be written into the file whenever it is not the specification's default
